@@ -1,5 +1,5 @@
 // Pool cases: drive the real ThreadPool (with the cfg(rws_verif) hooks) under a seeded perturbation and record the event trace.
-// pool <seed> <n> <jobspec>   jobspec: one letter per task  i=instant s=sleep r=rendezvous-of-n p=panic
+// pool <seed> <n> <jobspec>   jobspec: one letter per task  i=instant s=sleep r=rendezvous-of-n p=panic  z/w/f/e/g=a request through Server::process whose transport fails (zero-length write, write error, flush error, read error) or does not (g)
 use std::sync::{Arc, Mutex, Condvar, OnceLock, atomic::{AtomicU64, AtomicUsize, Ordering}};
 use std::time::{Duration, Instant};
 use crate::thread_pool::ThreadPool;
@@ -68,6 +68,8 @@ pub fn run_pool(f: &[&str]) -> String {
             impl Drop for Done { fn drop(&mut self) { let (m, cv) = &*self.0; *m.lock().unwrap() += 1; cv.notify_all(); } }
             let _d = Done(done);
             if k == 's' { std::thread::sleep(Duration::from_micros(200 + rnd() % 800)); }
+            // a request whose handling fails at the transport level, run through Server::process on this worker
+            if k == 'z' || k == 'w' || k == 'f' || k == 'e' || k == 'g' { crate::run::transport_job(k); }
             // panics of every payload kind a job can produce: a literal (&str), a formatted message (String), a failed unwrap, any other value
             if k == 'p' { match j % 4 { 0 => panic!("scripted job panic"), 1 => panic!("scripted job panic {}", j),
                                         2 => { let e: Result<u32, String> = Err(format!("job {}", j)); e.unwrap(); }, _ => std::panic::panic_any(j as u64) } }
